@@ -289,6 +289,12 @@ def wrap (s : State) : Exc → Err
       | .os => .socket
       | _ => .unhandled
 
+/-- `api_version.major > 2` is refused -/
+def versionOk (major : Nat) : Bool := major ≤ 2
+/-- the API-hello name check: an empty name means "not announced" and is accepted -/
+def nameOk (expected : Option (List Nat)) (received : List Nat) : Bool :=
+  received.isEmpty || expected.isNone || expected == some received
+
 /-- `_connect_hello_login` after the await: `responses.pop(0)` is treated as the HelloResponse
 (`_process_hello_resp`: version, then name), and with login the next one as the ConnectResponse
 (`_process_login_response`).  A response of the wrong type in a slot is an AttributeError. -/
@@ -341,9 +347,11 @@ def feed : State → List Pkt → State
 
 /-- `connection_lost(exc)` -/
 def onLost (s : State) : State :=
-  -- a raw OSError on the ready future becomes HandshakeAPIError in `_connect_init_frame_helper`
+  -- a raw OSError on the ready future becomes HandshakeAPIError in `_connect_init_frame_helper`;
+  -- the noise helper turns a reset that arrives before the server hello into HandshakeAPIError itself
+  -- (approximated as "noise and the handshake not finished")
   reportFatal (aReadyFail (if s.lostExc then .handshake else .socketClosed) (aLostRun s))
-    (if s.lostExc then .raw else .api .socketClosed)
+    (if s.lostExc then (if s.noise ∧ s.ready = .pending then .api .handshake else .raw) else .api .socketClosed)
 
 /-! ## the connect phases -/
 
